@@ -267,6 +267,27 @@ TEXT = {
                 "by the cache model. F19 (tag path mutates cached verifiers) is not exercised: tags are not generated.",
         "technique": "Lean 4 proof (index invariants; kernel-evaluated witnesses) + metamorphic/differential correspondence across cache configurations",
     },
+    "C15": {
+        "text": "Lean list-level model of ReconcileLocalRSLWithRemote (common ancestor, local-only entries, conflict check, replay loop) with the two faces of "
+                "F12 as variant flags, of getLatestRefTipsFromRSLEntries, and of sync over two abstract repositories (log + references + ancestry oracle; push decided per "
+                "reference, fast-forward only). Proved for ALL pairs of logs with a non-empty common prefix (unbounded lengths, any entry kinds, annotations naming anything "
+                "recorded earlier): reconcile_spec (repaired variant: success, new log = remote log ++ rename rho localOnly with rho the i-th local-only entry -> i-th fresh id, "
+                "every id once, Skipped new (rho e) <-> Skipped old e), reconcile_conflict (a reference changed on both sides through reference or propagation entries => error and "
+                "log unchanged), reconcile_conflict_current_partial (what the present code still refuses), reconcile_error_unchanged (every variant, every input), "
+                "reconcile_keeps_order, reconcile_exactly_once; refTips_honours_skips / refTips_sound (a reported tip is the target of the latest reference entry no later "
+                "annotation skips); sync_moves (a local reference is left alone or set to the reported tip, which exists locally and, without overwrite, descends from the old "
+                "state), sync_diverged_refused, sync_log_keep, sync_publishes_only_when_ahead. Witness theorems by evaluation for the code as it stands: F12_witness "
+                "(revoked local entry comes back unrevoked), F12b_witness (propagation conflict not refused, entry dropped), F60/F61/F62_witness. Every case runs the real "
+                "ReconcileLocalRSLWithRemote / Sync on two real repositories; model (current variant) and observation must coincide down to the new commit ids; the declarative "
+                "spec is evaluated on the observation.",
+        "note": TB + "sync_moves is proved relative to the tips getLatestRefTipsFromRSLEntries reports (reference entries only); the property's own wording, with propagation "
+                "entries counted as log entries (sync_moves_statement), is refuted for the code as it stands (sync_moves_statement_false = F62) and is evaluated on every real run. "
+                "The push-set statement (sync_publishes) is evaluated on every real run; on the model only sync_publishes_only_when_ahead and the F60/F61 witnesses are proved. "
+                "Open findings on this tree: F12 (annotations replayed with old ids: revocations lost), F12b (local propagation entries dropped and ignored by the conflict check), "
+                "F60 (references named only by propagation entries are not pushed with the log), F61 (push is not atomic: log published although a named reference is rejected), "
+                "F62 (sync moves a local reference to the latest reference entry's target although a later propagation entry records another state).",
+        "technique": "Lean 4 proof (induction over the replay loop with the partial renaming as invariant) + differential correspondence on pairs of real repositories",
+    },
 }
 
 NOT_YET = {}
